@@ -246,3 +246,56 @@ Definition to_int (s : list Z) : Z := sx32 (strtol64 s).        (* (int)strtol(s
 Definition to_uint (s : list Z) : Z := w32 (strtoul64 s).       (* (uint)strtoul(s, 0, 10)     *)
 Definition to_int64 (s : list Z) : Z := strtol64 s.             (* atoll                       *)
 Definition to_uint64 (s : list Z) : Z := strtoul64 s.           (* strtoull(s, 0, 10)          *)
+
+(* ------------------------------------------------------------------------------------------ *)
+(* the same parsers as machines over the C string, every byte fetched with a checked read       *)
+(* ------------------------------------------------------------------------------------------ *)
+
+(* `const char*` of a String: its bytes followed by the terminator that String keeps behind them.
+   strtol and friends walk this buffer one byte at a time; [peek] makes a read beyond the end of the
+   buffer an error.  i = index of the next byte; one unit of fuel per byte, S (length buf) suffices. *)
+Definition c_str (s : list Z) : list Z := s ++ [0].
+
+Fixpoint skip_space_at (fuel : nat) (buf : list Z) (i : nat) : res nat :=
+  match fuel with
+  | O => Err OutOfFuel
+  | S f => do c <- peek buf i; if c_isspace c then skip_space_at f buf (S i) else Ok i
+  end.
+
+Definition sign_at (buf : list Z) (i : nat) : res (bool * nat) :=
+  do c <- peek buf i;
+  if c =? 45 then Ok (true, S i) else if c =? 43 then Ok (false, S i) else Ok (false, i).
+
+Fixpoint digits_at (fuel : nat) (buf : list Z) (i : nat) (acc : Z) (n : nat) : res (Z * nat) :=
+  match fuel with
+  | O => Err OutOfFuel
+  | S f => do c <- peek buf i;
+           if c_isdigit c then digits_at f buf (S i) (acc * 10 + (c - 48)) (S n) else Ok (acc, n)
+  end.
+
+(* sign, magnitude of the digit prefix, number of digits *)
+Definition scan_at (buf : list Z) : res (bool * (Z * nat)) :=
+  do i <- skip_space_at (S (length buf)) buf 0;
+  do sg <- sign_at buf i;
+  do vn <- digits_at (S (length buf)) buf (snd sg) 0 0;
+  Ok (fst sg, vn).
+
+Definition strtol64_at (buf : list Z) : res Z :=
+  do r <- scan_at buf;
+  let '(neg, (v, n)) := r in
+  Ok (if (n =? 0)%nat then 0
+      else if neg then (if v >? 9223372036854775808 then -9223372036854775808 else - v)
+      else (if v >? 9223372036854775807 then 9223372036854775807 else v)).
+
+Definition strtoul64_at (buf : list Z) : res Z :=
+  do r <- scan_at buf;
+  let '(neg, (v, n)) := r in
+  Ok (if (n =? 0)%nat then 0
+      else if v >? 18446744073709551615 then 18446744073709551615
+      else if neg then w64 (- v) else v).
+
+(* String::toInt() ... on the String's own buffer (what the driver runs) *)
+Definition to_int_chk (s : list Z) : res Z := do v <- strtol64_at (c_str s); Ok (sx32 v).
+Definition to_uint_chk (s : list Z) : res Z := do v <- strtoul64_at (c_str s); Ok (w32 v).
+Definition to_int64_chk (s : list Z) : res Z := strtol64_at (c_str s).
+Definition to_uint64_chk (s : list Z) : res Z := strtoul64_at (c_str s).
